@@ -91,7 +91,7 @@ func (g *Gen) liveSnap(d *Dump) string {
 }
 
 var attrNames = []string{"x", "y", "k", "AND", "a b", "é"}
-var attrValues = []string{"", "v", "vw", "w", "日本"}
+var attrValues = []string{"", "v", "vw", "w", "日日"}
 
 func (g *Gen) attrs() map[string]string {
 	n := g.r.Intn(4)
@@ -111,7 +111,7 @@ func (g *Gen) attrs() map[string]string {
 var filters = []string{
 	`attributes:x`, `NOT attributes:x`, `attributes.x = "v"`, `attributes.x != "v"`, `hasPrefix(attributes.x, "v")`,
 	`attributes:x AND attributes:y`, `attributes:x OR attributes.k = "w"`, `-attributes:y`,
-	`NOT (attributes:x AND attributes.y = "")`, `attributes:"a b"`, `attributes:AND`, `attributes.é != "日本"`,
+	`NOT (attributes:x AND attributes.y = "")`, `attributes:"a b"`, `attributes:AND`, `attributes.é != "日日"`,
 	`attributes:x AND NOT hasPrefix(attributes.k,"v") AND attributes:y`, `(attributes:x OR attributes:y) AND attributes:k`,
 }
 var badFilters = []string{`attributes`, `attributes:x AND`, `attributes:x AND attributes:y OR attributes:k`, `x = "y"`, `attributes.x = y`, `"`, `attributes:5`}
